@@ -107,6 +107,19 @@ func (c *Ctx) Undecided(fn *ssa.Function, site string, pos token.Pos, fact strin
 	c.add(Undecided, fn, site, pos, fact, nil)
 }
 
+// AddOpen records an open obligation found under another build configuration.
+func (c *Ctx) AddOpen(key, status, clause, pos, fact string) {
+	parts := strings.SplitN(key, "|", 3)
+	for len(parts) < 3 {
+		parts = append(parts, "")
+	}
+	st := Violated
+	if status == string(Undecided) {
+		st = Undecided
+	}
+	c.Obls = append(c.Obls, &Obligation{Property: c.Prop, Rule: parts[0], Clause: clause, Func: parts[1], Site: parts[2], Pos: pos, Status: st, Fact: fact})
+}
+
 // Unresolved records an anchor that no longer resolves.
 func (c *Ctx) Unresolved(what string) {
 	o := &Obligation{Property: c.Prop, Rule: c.cur.rule, Clause: c.cur.clause, Func: what, Site: "anchor", Status: Undecided,
